@@ -205,6 +205,22 @@ def gen_cases(rng, tier):
             j = rng.below(dim)
             U[j] = L[j]
         cases.append(_case(rng, 'bnd-%d-%d' % (mode, i), T, L, U, r, npts, scan=total_cells(L, U, r) < 3 * 10 ** 5 and rng.chance(0.5)))
+    # axes that share their extent bit for bit (every pairing, and all three) while the remaining axis differs:
+    # per-axis tables / counts must come from the axis they belong to, whatever the other axes look like
+    for i in range(24 if quick else 600):
+        T = rng.choice(['f64', 'f32'])
+        r = rnd(T, rng.choice(DYADIC_R + DECIMAL_R) if rng.chance(0.5) else clamp(rnd(T, rng.loguniform(1e-2, 5.0)), 1e-3, 10.0))
+        for _ in range(20):
+            L, U = _random_extent(rng, T, 3, r) if rng.chance(0.6) else _multiple_extent(rng, T, 3, r, half=rng.chance(0.5))
+            pair = [(0, 1), (0, 2), (1, 2), (0, 1, 2)][i % 4]
+            for j in pair[1:]:
+                L[j], U[j] = L[pair[0]], U[pair[0]]
+            if total_cells(L, U, r) < MAXCELLS / 8:
+                break
+        else:
+            continue
+        cases.append(_case(rng, 'axes-shared-%s-%d' % (''.join(map(str, pair)), i), T, L, U, r, npts,
+                           scan=total_cells(L, U, r) < 3 * 10 ** 5))
     # the largest grids the property allows: one long axis of 2e6 cells (r = 1e-3 over [-1000, 1000])
     big = [('f64', 2), ('f32', 3)] if quick else [('f64', 2), ('f32', 2), ('f64', 3), ('f32', 3)]
     for T, dim in big:
